@@ -222,8 +222,29 @@ def analyse(obs: Obs, prog):
     fresh_edit = ("call", ("attr", eb, "edit"), (P("key"), fresh_tr, P("edit_request"), dcall("no_change", ("elem", bad))), ())
     bodies = [m[2][2] for m in ms if is_t(m[2], "fam")]
     obs.add({"C05", "C13"}, "BRANCH-FAMILY", "Switch.edit/same-index", same_body in bodies, derived=[show(b)[:200] for b in bodies], expected="index unchanged: f_i.edit(key, subtrace_i, request, argdiffs_i)", where=w)
-    okfresh = any(is_t(b, "tuple") and len(b[1]) == 4 and b[1][0] == mk_proj(fresh_edit, 0) and b[1][1] == mk_proj(fresh_edit, 1) and b[1][3] == mk_proj(fresh_edit, 3) for b in bodies)
-    obs.add({"C05", "C13", "C08"}, "BRANCH-FAMILY", "Switch.edit/changed-index", okfresh, derived=[show(b)[:260] for b in bodies], expected="index changed: simulate a fresh trace of branch i at the new primals, then apply the request with NoChange argdiffs", where=w)
+    # The index's TAG being UnknownChange does not mean its VALUE changed (scan tags every kernel argument UnknownChange): the branch edit must start from the
+    # existing subtrace when clamp(new index) == trace.get_idx() and from a fresh simulation otherwise - a value test, leaf-wise selection - and since the kept
+    # subtrace's arguments may have changed, the argdiffs handed to the branch are the given ones or unknown_change(primals), never no_change.
+    okfresh, why = False, "no per-branch body of the expected shape"
+    for b in bodies:
+        if not (is_t(b, "tuple") and len(b[1]) == 4 and all(is_t(x, "proj") for x in (b[1][0], b[1][1], b[1][3])) and b[1][0][1] == b[1][1][1] == b[1][3][1]):
+            continue
+        e_ = b[1][0][1]
+        if not (is_mcall(e_, "edit") and e_[1][1] == eb and len(e_[2]) == 4 and e_[2][0] == P("key") and e_[2][2] == P("edit_request")):
+            continue
+        start, ad_ = e_[2][1], e_[2][3]
+        if start == ("elem", tsub):
+            continue  # the same-index body
+        gate_ok = is_t(start, "treemap") and is_t(start[1], "where") and start[2] == (("elem", tsub), fresh_tr) and start[1][2:] == (("leaf", ("elem", tsub)), ("leaf", fresh_tr))
+        if gate_ok:
+            g_ = start[1][1]
+            gate_ok = is_t(g_, "cmp") and g_[1] == "==" and {g_[2], g_[3]} >= {call0(P("trace"), "get_idx")} and any(normalised(x, RAWN) for x in (g_[2], g_[3]))
+        ad_ok = ad_ in (("elem", bad), dcall("unknown_change", dcall("tree_primal", ("elem", bad))), dcall("unknown_change", ("elem", bad)))
+        okfresh = bool(gate_ok and ad_ok)
+        why = f"start trace {'is gated by value' if gate_ok else 'is NOT where(clamp(new idx) == trace.get_idx(), old subtrace, fresh)'}: {show(start)[:200]}; branch argdiffs {show(ad_)[:80]} {'ok' if ad_ok else 'must not be no_change (the kept subtrace may have other arguments)'}"
+        break
+    obs.add({"C05", "C13", "C08"}, "BRANCH-FAMILY", "Switch.edit/changed-index", okfresh, construct="index tagged UnknownChange", derived=why,
+            expected="f_i.edit(key, where(clamp(new idx) == trace.get_idx(), subtrace_i, f_i.simulate(key, primals_i)), request, unknown_change(primals_i)): an UnknownChange index with the SAME value keeps the existing choices", where=w)
     # weight on index change: new score - old score (no double counting of the fresh branch)
     wt = q[1]
     okw = False
